@@ -198,33 +198,134 @@ def fEntries (es : List (List Nat × Nat)) : String :=
 def fCfg (c : Cfg) : String := s!"{fEntries c.dicts}@{fEntries c.leaves}"
 def fCWorld (w : CWorld) : String := String.intercalate "|" (w.cfgs.map fCfg)
 
-def fCRes : Except CErr Unit → String
-  | .ok _ => "ok" | .error .keyError => "E:KeyError" | .error .typeError => "E:TypeError"
-  | .error .badTarget => "E:BadTarget"
+def fCRes : Except CErr CRes → String
+  | .ok .unit => "ok" | .ok (.val v) => s!"v{v}" | .ok .cont => "cont"
+  | .error .keyError => "E:KeyError" | .error .typeError => "E:TypeError"
+  | .error .badTarget => "E:BadTarget" | .error (.ext c) => s!"X{c}"
 
-def cfgRun (world : String) (ops : List String) : String := Id.run do
+/-- `v<code>` = value, `e<code>` = raises the exception class `code` -/
+def pExtRes (s : String) : Except Nat Nat :=
+  if s.startsWith "v" then .ok (pN (s.drop 1).toString) else .error (pN (s.drop 1).toString)
+
+/-- table `a>r,a>r` (one argument) -/
+def pTab1 (s : String) : List (Nat × Except Nat Nat) :=
+  if s == "-" then [] else (s.splitOn ",").filterMap fun e =>
+    match e.splitOn ">" with
+    | [a, r] => some (pN a, pExtRes r)
+    | _ => none
+
+/-- table `a:b>r,…` (two arguments) -/
+def pTab2 (s : String) : List ((Nat × Nat) × Except Nat Nat) :=
+  if s == "-" then [] else (s.splitOn ",").filterMap fun e =>
+    match e.splitOn ">" with
+    | [ab, r] => match ab.splitOn ":" with
+        | [a, b] => some ((pN a, pN b), pExtRes r)
+        | _ => none
+    | _ => none
+
+/-- an argument the harness did not tabulate: exception code 999 (reported as a machinery error) -/
+def look1 (t : List (Nat × Except Nat Nat)) (a : Nat) : Except Nat Nat :=
+  match t.find? (fun e => e.1 == a) with | some e => e.2 | none => .error 999
+def look2 (t : List ((Nat × Nat) × Except Nat Nat)) (a b : Nat) : Except Nat Nat :=
+  match t.find? (fun e => e.1 == (a, b)) with | some e => e.2 | none => .error 999
+
+def pKeys (s : String) : Keys :=
+  match (s.splitOn ",").map pN with
+  | [a, b, c, d, e, f, g, h, i, j, k, l] => ⟨a, b, c, d, e, f, g, h, i, j, k, l⟩
+  | _ => ⟨0, 0, 0, 0, 0, 0, 0, 0, 0, 0, 0, 0⟩
+
+def pExt (s : String) : Ext :=
+  match s.splitOn "/" with
+  | [ab, cv, jn, t, f] =>
+      { abspath := look1 (pTab1 ab), conv := look2 (pTab2 cv), join := look2 (pTab2 jn), vTrue := pN t, vFalse := pN f }
+  | _ => { abspath := fun _ => .error 999, conv := fun _ _ => .error 999, join := fun _ _ => .error 999, vTrue := 1, vFalse := 0 }
+
+def pUnitArg (s : String) : UnitArg :=
+  if s == "-" then .absent else if s == "b" then .bad else .ok (pN (s.drop 1).toString)
+
+/-- index keys of list containers: 100000 + position (convention shared with the harness) -/
+def idxBase : Nat := 100000
+
+inductive CfgReq
+  | call (c : CCall) (old : Bool)
+  | append (j : Nat) (path : List Nat) (v : Nat)     -- `cfgs[j][p..].append(v)`
+  | memoQuery (j u : Nat)                             -- negative model: class level memo
+  | bad
+
+def pMethod (xs : List String) : Option Method :=
+  match xs with
+  | ["et"] => some .enableTracing
+  | ["dt"] => some .disableTracing
+  | ["set", f] => some (.setEnableTracing (pN f))
+  | ["ncpu", v] => some (.setNcpu (pN v))
+  | ["units", a] => match (a.splitOn ",").map pUnitArg with
+      | [x, y, z, t] => some (.setInternalUnits x y z t)
+      | _ => none
+  | ["wd", p] => some (.setWd (if p == "n" then none else some (pN p)))
+  | ["ite"] => some .isTracingEnabled
+  | ["getwd"] => some .getWd
+  | ["titu", u] => some (.toInternalTimeUnit (pN u))
+  | ["wdf", f] => some (.wdFilename (pN f))
+  | _ => none
+
+def pCfgReq (o : String) : CfgReq :=
+  match o.splitOn ":" with
+  | ["new"] => .call (.op .new) false
+  | ["fd", u] => .call (.op (.fromDict (pN u))) false
+  | ["fdold", u] => .call (.op (.fromDict (pN u))) true
+  | ["set", j, p, k, v] => .call (.op (.set (pN j) (pPath p) (pN k) (pN v))) false
+  | ["del", j, p, k] => .call (.op (.del (pN j) (pPath p) (pN k))) false
+  | ["get", j, p, k] => .call (.op (.get (pN j) (pPath p) (pN k))) false
+  | ["app", j, p, v] => .append (pN j) (pPath p) (pN v)
+  | ["mq", j, u] => .memoQuery (pN j) (pN u)
+  | "m" :: j :: rest => match pMethod rest with
+      | some m => .call (.meth (pN j) m) false
+      | none => .bad
+  | _ => .bad
+
+def cfgRun (world : String) (rest : List String) : String := Id.run do
   let cfgs := (world.splitOn "|").map pCfg
   let nxt := (cfgs.flatMap Cfg.locs).foldl max 0 + 1
-  let mut w : CWorld := { next := nxt, cfgs := cfgs }
-  let mut outs : Array String := #[]
+  let mut K : Keys := ⟨0, 0, 0, 0, 0, 0, 0, 0, 0, 0, 0, 0⟩
+  let mut E : Ext := pExt "-"
+  let mut sp : List Nat := []
+  let mut ops : List String := []
+  for t in rest do
+    if t.startsWith "K=" then K := pKeys (t.drop 2).toString
+    else if t.startsWith "X=" then E := pExt (t.drop 2).toString
+    else if t.startsWith "S=" then sp := pList pN (t.drop 2).toString
+    else ops := ops ++ [t]
+  let mut w : CWorld := { next := nxt, cfgs := cfgs, syspath := sp }
+  let mut memo : List (Nat × Nat) := []
+  let mut outs : Array String := #[s!"inv={fB (cinvB w)}"]
   let mut left := ops.length
   for o in ops do
     left := left - 1
-    let op? : Option (COp × Bool) := match o.splitOn ":" with
-      | ["new"] => some (.new, false)
-      | ["fd", u] => some (.fromDict (pN u), false)
-      | ["fdold", u] => some (.fromDict (pN u), true)
-      | ["set", j, p, k, v] => some (.set (pN j) (pPath p) (pN k) (pN v), false)
-      | _ => none
-    match op? with
-    | none => outs := outs.push "bad-op"
-    | some (op, old) =>
-        let (w', r) := if old then cstepOld w op else cstep w op
-        let (ws, rs) := cspecStep w op
+    let tail := fun (w : CWorld) => if left == 0 then s!"{fCWorld w};sys={fListD toString w.syspath}" else "-"
+    match pCfgReq o with
+    | .bad => outs := outs.push "bad-op"
+    | .call c old =>
+        let (w', r) := match c, old with
+          | .op op, true => cstepOld w op
+          | c, _ => ccall cstep K E w c
+        let (ws, rs) := ccall cspecStep K E w c
+        let agree := decide (w'.cfgs = ws.cfgs) && (fCRes r == fCRes rs) && decide (w'.syspath = ws.syspath)
+        w := w'
+        outs := outs.push s!"{fCRes r}#{tail w}#{fB agree}"
+    | .append j path v =>
+        let k := match w.cfgs[j]? with | some c => idxBase + c.childCount path | none => idxBase
+        let (w', r) := cstep w (.set j path k v)
+        let (ws, rs) := cspecStep w (.set j path k v)
         let agree := decide (w'.cfgs = ws.cfgs) && (fCRes r == fCRes rs)
         w := w'
-        -- the world is printed after the last operation only
-        outs := outs.push s!"{fCRes r}#{if left == 0 then fCWorld w else "-"}#{fB agree}"
+        outs := outs.push s!"{fCRes r}#{tail w}#{fB agree}"
+    | .memoQuery j u =>
+        match w.cfgs[j]? with
+        | none => outs := outs.push s!"E:BadTarget#{tail w}#1"
+        | some c =>
+            let (m', r) := memoTime E memo c K u
+            memo := m'
+            outs := outs.push s!"{fCRes r}#{tail w}#1"
   return String.intercalate " " outs.toList
 
 def answer (line : String) : String :=
@@ -240,7 +341,7 @@ def answer (line : String) : String :=
   | ["and", st, ss] => fB (andCheckS (pN st) (pStages ss))
   | ["or", st, ss] => fB (orCheckS (pN st) (pStages ss))
   | ["joint", fs, ss] => fListD toString (jointNames (pDict fs) (pStages ss))
-  | "cfg" :: world :: ops => cfgRun world ops
+  | "cfg" :: world :: rest => cfgRun world rest
   | _ => "bad-op"
 
 def main : IO Unit := do loop (← IO.getStdin) answer
